@@ -28,7 +28,10 @@ From TI Require Import lib.Term lib.TermFacts lib.Rect lib.Lines lib.TermScroll
      model.Padding model.Draw model.GfxRender
      proofs.BlockRect proofs.DrawLines proofs.DrawProofs proofs.DrawProofsOld
      proofs.DrawStyles proofs.DrawFinal lib.RectCheck model.DrawTie proofs.DrawTieProofs
-     lib.TermPlace proofs.DrawPlace.
+     lib.TermPlace proofs.DrawPlace
+     model.DrawEnv proofs.DrawEnvProofs model.DrawCut model.DrawCutTie proofs.DrawCutProofs
+     proofs.DrawCutTieProofs proofs.DrawIntProofs.
+From TI Require model.DrawInt.
 From TI Require gen.Decide proofs.DecideTie.
 Open Scope Z_scope.
 
@@ -236,6 +239,225 @@ Theorem C06_final_ok_live :
   live (exec_evs 0 (start r0 0) St) = live (exec_evs 0 (start r0 0) Ref).
 Proof. exact final_ok_live. Qed.
 Print Assumptions C06_final_ok_live.
+
+(** *** round 4 (a): "the terminal" is the ACTIVE TERMINAL — the size every decision of
+    [draw()] uses is the window size of the active terminal ([model/DrawEnv.v]:
+    [get_terminal_size] of an environment record that HOLDS the COLUMNS / LINES variables and
+    the terminal standard output is connected to).  Two environments whose active terminals
+    have the same window size give the same case, the same stream and the same verdict of the
+    correspondence, whatever their other fields *)
+Theorem C06_env_window_only :
+  forall e1 e2 wh c,
+  e_window e1 = Some wh -> e_window e2 = Some wh ->
+  env_case e1 c = env_case e2 c
+  /\ draw_in_env e1 c = draw_in_env e2 c
+  /\ echeck (e1, c) = echeck (e2, c).
+Proof. exact env_window_only. Qed.
+Print Assumptions C06_env_window_only.
+
+Theorem C06_env_draw_window_only :
+  forall e1 e2 wh cs allow anim hide fill d w h clear frames,
+  e_window e1 = Some wh -> e_window e2 = Some wh ->
+  new_draw_in_env e1 cs allow anim hide fill d w h clear frames
+  = new_draw_in_env e2 cs allow anim hide fill d w h clear frames.
+Proof. exact new_draw_window_only. Qed.
+Print Assumptions C06_env_draw_window_only.
+
+Theorem C06_env_old_draw_window_only :
+  forall e1 e2 wh cs scroll anim dyn tty rawW rawH ha va w h pre clear frames,
+  e_window e1 = Some wh -> e_window e2 = Some wh ->
+  old_draw_in_env e1 cs scroll anim dyn tty rawW rawH ha va w h pre clear frames
+  = old_draw_in_env e2 cs scroll anim dyn tty rawW rawH ha va w h pre clear frames.
+Proof. exact old_draw_window_only. Qed.
+Print Assumptions C06_env_old_draw_window_only.
+
+(** rejected (nothing written) exactly when the documented rule, evaluated against the WINDOW
+    size of the active terminal, says the draw does not fit *)
+Theorem C06_env_rejects_iff_window :
+  forall e tw th cs allow anim hide fill l t r b w h clear frames,
+  e_window e = Some (tw, th) ->
+  new_draw_in_env e cs allow anim hide fill (l, t, r, b) w h clear frames = None
+  <-> ~ doc_fits cs allow anim (l + w + r) (t + h + b) tw th.
+Proof. exact new_env_rejects_iff. Qed.
+Print Assumptions C06_env_rejects_iff_window.
+
+Theorem C06_env_old_rejects_iff_window :
+  forall e tw th cs scroll anim dyn tty rawW rawH ha va w h pre clear frames,
+  e_window e = Some (tw, th) ->
+  old_draw_in_env e cs scroll anim dyn tty rawW rawH ha va w h pre clear frames = None
+  <-> ~ old_doc_fits cs scroll anim dyn w h rawW rawH tw th.
+Proof. exact old_env_rejects_iff. Qed.
+Print Assumptions C06_env_old_rejects_iff_window.
+
+(** the excluded design (environment variables / standard output first, the terminal itself
+    as a fallback) accepts a 70-column draw on a 40 x 10 window under a stale COLUMNS=120
+    LINES=50, which the documented rule and the model of either API reject *)
+Theorem C06_env_first_design_refuted :
+  let e := {| e_window := Some (40, 10); e_columns := Some 120; e_lines := Some 50; e_stdout := Some (40, 10) |} in
+  draw_env_first e 70 3 <> None
+  /\ ~ doc_fits true false false 70 3 40 10
+  /\ new_draw_in_env e true false false false None (0, 0, 0, 0) 70 3 [] [[]] = None
+  /\ old_draw_in_env e true false false false false 1 1 0 0 70 3 [] [] [[]] = None.
+Proof. exact env_first_refuted. Qed.
+Print Assumptions C06_env_first_design_refuted.
+
+(** *** round 4 (b): animations ENDED BY Ctrl-C ([model/DrawCut.v]: [anim_cut] / [old_anim_cut] =
+    the streams of [model/Draw.v] extended with an interruption point: which write of which
+    frame — the first included —, how many of its tokens got out, a [TCut] where the cut falls
+    inside an escape sequence, or "between two frames").
+
+    [CutFinal lm t0 hide first_inc csi_ok pw ph park np S]: after [S] the cursor is at the left
+    margin, visible, attributes reset, the terminal not inside a string, no chunked transmission
+    pending (and in the ground state, except for the one residue of the new API described at
+    [new_csi_residue]); no cell outside the padded region was touched; the interrupt found the
+    cursor inside the region; and the cursor ends on the line below the region, lower by exactly
+    as many lines as the interrupt found it below the row it rests on between frames ([park]) —
+    so ON the line immediately below the region whenever the interrupt falls on the first line
+    of a frame, on a cursor move back to it, or between frames.  (While the new API's first
+    frame is incomplete there is no region yet: start of the next line.)  See
+    [C06_cut_cursor_displaced] for the displacement on the current code.
+
+    new API, EVERY interruption point of EVERY frame: frames meeting the render contract and
+    made of plain text / SGR / cursor / erase tokens, any handler that ends a cut sequence and
+    resets the attributes without moving ([HndOK]; [CSI 0 m] is one) *)
+Theorem C06_anim_cut_final :
+  forall (W H lm : Z) (fill : option glyph) (w h pl pt pr pb : Z),
+  0 <= pl -> 0 <= pt -> 0 <= pr -> 0 <= pb -> 0 <= lm ->
+  lm + (pl + w + pr) <= W -> pt + h + pb <= H ->
+  forall clear : list tok, ClearOK w h clear ->
+  forall (ls1 : list (list tok)) (lss : list (list (list tok))),
+  LinesRect all_cells w h ls1 -> (forall ln, In ln ls1 -> Downward ln) ->
+  Forall (LinesRect all_cells w h) lss ->
+  forallb ftok (padded fill (pl, pt, pr, pb) w h (joinlf ls1)) = true ->
+  Forall (fun F => forallb ftok F = true) (map joinlf lss) ->
+  forallb ftok clear = true -> forallb nosgr clear = true ->
+  forall (hide : bool) (hnd : list tok), HndOK lm hnd ->
+  forall (t0 : term) (top0 : Z),
+  okat t0 (row t0) lm -> top0 <= row t0 < top0 + H ->
+  forall p : ipoint, point_ok (map joinlf lss) p ->
+  CutFinal lm t0 hide (first_incomplete p) (new_csi_residue hide pb h p)
+           (pl + w + pr) (pt + h + pb) (row t0 + pt)
+           (length (opt hide THide ++ anim_delivered pl pb h clear
+                      (padded fill (pl, pt, pr, pb) w h (joinlf ls1)) (map joinlf lss) p))
+           (anim_cut hide hnd pl pb h clear (padded fill (pl, pt, pr, pb) w h (joinlf ls1))
+                     (map joinlf lss) p).
+Proof. exact anim_cut_final. Qed.
+Print Assumptions C06_anim_cut_final.
+
+(** new API, interrupt between two frames (during the frame's duration / the rendering of the
+    next one): the FULL final-state predicate, the region showing the last complete frame *)
+Theorem C06_anim_cut_between_final :
+  forall (W H lm : Z) (fill : option glyph) (w h pl pt pr pb : Z),
+  0 <= pl -> 0 <= pt -> 0 <= pr -> 0 <= pb -> 0 <= lm ->
+  lm + (pl + w + pr) <= W -> pt + h + pb <= H ->
+  forall clear : list tok, ClearOK w h clear ->
+  forall (ls1 : list (list tok)) (lss : list (list (list tok))),
+  LinesRect all_cells w h ls1 -> (forall ln, In ln ls1 -> Downward ln) ->
+  Forall (LinesRect all_cells w h) lss ->
+  forall (hide : bool) (hnd : list tok) (t0 : term) (top0 : Z),
+  okat t0 (row t0) lm -> top0 <= row t0 < top0 + H ->
+  forall m : nat,
+  DrawFinal W H lm top0 t0 hide (pl + w + pr) (pt + h + pb)
+            (padded fill (pl, pt, pr, pb) w h (joinlf (lastframe ls1 (firstn m lss))))
+            (anim_cut hide hnd pl pb h clear (padded fill (pl, pt, pr, pb) w h (joinlf ls1))
+                      (map joinlf lss) (IBetween m)).
+Proof. exact anim_cut_between_final. Qed.
+Print Assumptions C06_anim_cut_between_final.
+
+(** old API, EVERY interruption point of EVERY frame, every style's handler (block: nothing,
+    kitty: ST ST + end-of-chunks, iterm2: ST ST), with kitty's clearing and the wezterm
+    pre-erase: the handler's ST comes before the trailing sequence, so a graphics string cut
+    anywhere — in the FIRST frame too — is ended before cursor-down / SGR reset / show-cursor /
+    newline are written *)
+Theorem C06_old_anim_cut_final :
+  forall W H lm W' H' (ha va : nat) w h (oldk wez tty : bool)
+         (ls1 : list (list tok)) (lss : list (list (list tok))) t0 top0,
+  0 <= lm -> lm + Z.max W' w <= W -> Z.max H' h <= H ->
+  LinesRect all_cells w h ls1 -> (forall ln, In ln ls1 -> Downward ln) ->
+  Forall (LinesRect all_cells w h) lss ->
+  okat t0 (row t0) lm -> top0 <= row t0 < top0 + H ->
+  let fmt := fun ls => format_render W' H' ha va w h (joinlf ls) in
+  let pre := if wez then wez_pre W' H' ha va w h else [] in
+  forall s : DrawInt.style,
+  forallb (DrawInt.tok_ok s) pre = true -> forallb (DrawInt.tok_ok s) (kitty_clear oldk) = true ->
+  forallb (DrawInt.tok_ok s) (fmt ls1) = true ->
+  Forall (fun F => forallb (DrawInt.tok_ok s) F = true) (map fmt lss) ->
+  forallb nohs pre = true -> forallb nohs (fmt ls1) = true ->
+  Forall (fun F => forallb nohs F = true) (map fmt lss) ->
+  forall p : opoint, opoint_ok (map fmt lss) p ->
+  CutFinal lm t0 tty false false (Z.max W' w) (Z.max H' h) (row t0)
+           (length (opt tty THide ++ pre ++ old_delivered (Z.max H' h) (kitty_clear oldk) (fmt ls1) (map fmt lss) p))
+           (old_anim_cut tty (DrawInt.handler s) (Z.max H' h) pre (kitty_clear oldk) (fmt ls1) (map fmt lss) p).
+Proof. exact old_anim_cut_final. Qed.
+Print Assumptions C06_old_anim_cut_final.
+
+(** old API, interrupt after [m + 1] complete frames: the FULL final-state predicate against
+    the last complete frame, whatever the style's handler writes *)
+Theorem C06_old_anim_cut_between_final :
+  forall W H lm W' H' (ha va : nat) w h (oldk wez tty : bool)
+         (ls1 : list (list tok)) (lss : list (list (list tok))) t0 top0,
+  0 <= lm -> lm + Z.max W' w <= W -> Z.max H' h <= H ->
+  LinesRect all_cells w h ls1 -> (forall ln, In ln ls1 -> Downward ln) ->
+  Forall (LinesRect all_cells w h) lss ->
+  okat t0 (row t0) lm -> top0 <= row t0 < top0 + H ->
+  let fmt := fun ls => format_render W' H' ha va w h (joinlf ls) in
+  forall (s : DrawInt.style) (m : nat),
+  DrawFinal W H lm top0 t0 tty (Z.max W' w) (Z.max H' h) (fmt (lastframe ls1 (firstn m lss)))
+            (old_anim_cut tty (DrawInt.handler s) (Z.max H' h)
+               (if wez then wez_pre W' H' ha va w h else []) (kitty_clear oldk)
+               (fmt ls1) (map fmt lss) (OBetween (S m))).
+Proof. exact old_anim_cut_between_final. Qed.
+Print Assumptions C06_old_anim_cut_between_final.
+
+(** the clean-up alone, from WHATEVER the interrupt left (no render contract needed): left
+    margin, [lines] rows further down, attributes reset, ground state, nothing pending, visible,
+    only cursor movements written *)
+Theorem C06_old_cut_recovers :
+  forall lm (s : DrawInt.style) (tty : bool) lines pre clear P1 Ps,
+  1 <= lines ->
+  forallb (DrawInt.tok_ok s) pre = true -> forallb (DrawInt.tok_ok s) clear = true ->
+  forallb (DrawInt.tok_ok s) P1 = true -> Forall (fun F => forallb (DrawInt.tok_ok s) F = true) Ps ->
+  forallb nohs pre = true -> forallb nohs clear = true -> forallb nohs P1 = true ->
+  Forall (fun F => forallb nohs F = true) Ps ->
+  forall p t0, parser t0 = Ground -> pending t0 = None ->
+  let D := opt tty THide ++ pre ++ old_delivered lines clear P1 Ps p in
+  let S := old_anim_cut tty (DrawInt.handler s) lines pre clear P1 Ps p in
+  col (exec lm t0 S) = lm /\ row (exec lm t0 S) = row (exec lm t0 D) + lines
+  /\ sgr (exec lm t0 S) = adefault /\ parser (exec lm t0 S) = Ground /\ pending (exec lm t0 S) = None
+  /\ visible (exec lm t0 S) = (if tty then true else visible t0)
+  /\ exists M, exec_evs lm t0 S = exec_evs lm t0 D ++ M /\ forallb is_move M = true.
+Proof. exact old_cut_recovers. Qed.
+Print Assumptions C06_old_cut_recovers.
+
+(** the executable predicate the correspondence evaluates on the implementation's own bytes
+    implies [CutFinal] *)
+Theorem C06_cut_ok_sound :
+  forall W H pw ph park finc fpart csi np St r0 hide,
+  cut_ok W H pw ph park finc fpart csi np St r0 = true ->
+  CutFinal 0 (start r0 0) hide finc csi pw ph (r0 + park) np St.
+Proof. exact cut_ok_sound. Qed.
+Print Assumptions C06_cut_ok_sound.
+
+(** FINDING (current code, both APIs): the trailing [cursor_down] is relative, so an interrupt
+    that finds the cursor [i] lines below the first line of the frame leaves it [i] lines below
+    the line below the region (here: 2 x 2 frames in a 3 x 5 region, interrupt in the second line
+    of a later frame: row 0 + 5 + 1) — the full cursor clause holds at interrupts on a frame's
+    first line (every cut inside a WHOLE-method graphics transmission), in the cursor moves and
+    between frames only *)
+Theorem C06_cut_cursor_displaced :
+  row (exec 0 (start 0 0) ex_new) = 0 + 5 + 1
+  /\ row (exec 0 (start 0 0) (firstn ex_new_np ex_new)) = (0 + 1) + 1.
+Proof. exact ex_new_displaced. Qed.
+Print Assumptions C06_cut_cursor_displaced.
+
+(** the excluded design: interrupted-draw handling that does not cover the first frame's write
+    leaves the terminal inside the graphics string (cursor hidden, not moved) *)
+Theorem C06_first_frame_needs_handler :
+  let t := exec 0 (start 0 0) (ex_old []) in
+  parser t = InStr /\ visible t = false /\ row t = 0
+  /\ cut_ok 10 8 4 3 0 false true false ex_old_np (ex_old []) 0 = false.
+Proof. exact first_frame_needs_handler. Qed.
+Print Assumptions C06_first_frame_needs_handler.
 
 (** *** the size-validation decisions tied to the source as theorems (T): the `if check_size:`
     block of [Renderable._init_render_], the keyword arguments with which [Renderable.draw] calls
